@@ -167,12 +167,35 @@ def may_segment(items):
     return items[idx:]
 
 
+def strip_api_call(items, pos):
+    """the trace without the pos-th api call (all its items) and with the later call tags moved down by one"""
+    apis = [it for it in items if it[0] == 'api']
+    tag = apis[pos][2]
+    at = {'api': 2, 'ret': 1, 'raised': 1, 'call': 4}
+    out, skipping = [], False
+    for it in items:
+        if it[0] == 'api' and it[2] == tag:
+            skipping = True
+            continue
+        if skipping:
+            if it[0] in ('ret', 'raised') and it[1] == tag:
+                skipping = False
+            continue
+        it = list(it)
+        k = at.get(it[0])
+        if k is not None and isinstance(it[k], int) and it[k] > tag:
+            it[k] -= 1
+        out.append(tuple(it))
+    return out
+
+
 def predict_case(case):
     """returns (failures, n_checks, n_true)"""
     d = case['_d']
     setup = case['_setup']
     out = []
     checks = trues = 0
+    full0 = None
     evs = [e for e, _ in d.events] + [len(d.events) + 3]
     for i in range(len(d.history) + 1):
         prefix = d.history[:i]
@@ -207,6 +230,19 @@ def predict_case(case):
                 if rp.final() != ra.final():
                     out.append(('may-changed-a-state', dict(info, before=str(rp.final()), after=str(ra.final())),
                                 'C12.pure:' + setup[0]))
+                # no side effect that shows LATER: the rest of the history behaves as if the may_ had not been issued
+                if i < len(d.history):
+                    if full0 is None:
+                        full0 = make_run(with_history(d, d.history), setup).run()
+                    rl = make_run(with_history(d, prefix + [(MAY, m, ev)] + d.history[i:]), setup).run()
+                    got, want = strip_api_call(rl.items, i), [tuple(it) for it in full0.items]
+                    if got != want or rl.final() != full0.final():
+                        k = next((j for j, (x, y) in enumerate(zip(got, want)) if x != y), min(len(got), len(want)))
+                        out.append(('may-changed-later-behaviour',
+                                    dict(info, first_difference=k,
+                                         with_may=[common.show_item(x) for x in got[k:k + 3]],
+                                         without=[common.show_item(x) for x in want[k:k + 3]]),
+                                    'C12.pure:' + setup[0]))
                 if out:
                     return out, checks, trues
     # re-entrant calls: may_ / trigger issued from INSIDE a callback of the running event (the machine may be scoped
